@@ -919,10 +919,10 @@ fn all_compositions(bytes: &[u8], mut f: impl FnMut(Vec<Vec<u8>>)) {
 
 fn enumerate(o: &Opts, rec: &mut Recorder) {
     // message-length configurations whose stream has at most `cap` bytes
-    let cap = if o.thorough() { 14 } else { 10 };
+    let cap = if o.thorough() { 16 } else { 10 };
     let cfgs: &[&[usize]] = &[
         &[1], &[2], &[1, 1], &[3], &[2, 1], &[1, 2], &[5], &[1, 1, 1], &[7], &[3, 2], &[2, 2, 2], &[1, 2, 3], &[10], &[4, 4],
-        &[3, 3, 2], &[5, 5], &[12], &[0], &[1, 0], &[0, 1], &[1, 0, 1], &[2, 0, 2, 0],
+        &[3, 3, 2], &[5, 5], &[12], &[3, 3, 3], &[13], &[14], &[6, 6], &[4, 4, 2], &[0], &[1, 0], &[0, 1], &[1, 0, 1], &[2, 0, 2, 0],
     ];
     let mut seed = 0x41u8;
     for cfg in cfgs {
@@ -1025,7 +1025,7 @@ pub fn run(o: &Opts, rec: &mut Recorder) {
     enumerate(o, rec);
     rec.stat_n("enumerated.all-compositions-cases", (rec.cases.len() - before) as u64);
     let mut r = Rng::new(o.seed);
-    for _ in 0..o.n(12_000, 200_000) {
+    for _ in 0..o.n(12_000, 300_000) {
         let l = gen_case(&mut r);
         exec(&l, rec);
     }
